@@ -262,6 +262,166 @@ func wireVersion(v primitive.ProtocolVersion, rec *predRec) {
 	}
 }
 
+// ---- every kind of response, every ERROR variant, to ONE of several outstanding requests. The frame must reach
+// exactly the request with its stream id (C10), whatever the client does with the connection afterwards: after one of
+// the fatal errors (SERVER_ERROR, PROTOCOL_ERROR, AUTH_ERROR) the client closes the connection, and then the other
+// outstanding requests must be completed with an error (C16) - but the fatal ERROR frame itself is a response like
+// any other and must have been handed to its request first.
+type kindRound struct {
+	Version  int    `json:"version"`
+	Response string `json:"response"` // the message type the peer answers with
+	Fatal    bool   `json:"fatal_error"`
+}
+
+func responseKinds() []message.Message {
+	return []message.Message{
+		&message.Ready{}, &message.Supported{Options: map[string][]string{"CQL_VERSION": {"3.0.0"}}}, &message.VoidResult{},
+		&message.SetKeyspaceResult{Keyspace: "ks"}, &message.AuthChallenge{Token: []byte{1, 2}}, &message.AuthSuccess{Token: []byte{3}},
+		&message.Overloaded{ErrorMessage: "e"}, &message.IsBootstrapping{ErrorMessage: "e"}, &message.TruncateError{ErrorMessage: "e"},
+		&message.SyntaxError{ErrorMessage: "e"}, &message.Unauthorized{ErrorMessage: "e"}, &message.Invalid{ErrorMessage: "e"},
+		&message.ConfigError{ErrorMessage: "e"},
+		&message.Unavailable{ErrorMessage: "e", Consistency: primitive.ConsistencyLevelOne, Required: 2, Alive: 1},
+		&message.AlreadyExists{ErrorMessage: "e", Keyspace: "ks", Table: "t"},
+		&message.Unprepared{ErrorMessage: "e", Id: []byte{1, 2, 3}},
+		// the fatal ones last: each needs a connection of its own
+		&message.ServerError{ErrorMessage: "e"}, &message.ProtocolError{ErrorMessage: "e"}, &message.AuthenticationError{ErrorMessage: "e"},
+	}
+}
+
+func wireKindsVersion(v primitive.ProtocolVersion, rec *predRec) {
+	var cc *client.CqlClientConnection
+	var sc *client.CqlServerConnection
+	var server *client.CqlServer
+	ctx, cancel := context.WithCancel(context.Background())
+	defer cancel()
+	open := func() error {
+		addr := freeAddr()
+		server = client.NewCqlServer(addr, nil)
+		clt := client.NewCqlClient(addr, nil)
+		clt.ReadTimeout = wireReadTimeout
+		clt.MaxInFlight = 8
+		if err := server.Start(ctx); err != nil {
+			return err
+		}
+		var err error
+		if !within(8*time.Second, func() { cc, sc, err = server.BindAndInit(clt, ctx, v, client.ManagedStreamId) }) {
+			return fmt.Errorf("bind and handshake did not return")
+		}
+		return err
+	}
+	shut := func() {
+		if cc != nil {
+			within(3*time.Second, func() { _ = cc.Close(); _ = sc.Close() })
+		}
+		if server != nil {
+			within(3*time.Second, func() { _ = server.Close() })
+		}
+		cc, sc, server = nil, nil, nil
+	}
+	defer shut()
+	for _, msg := range responseKinds() {
+		r := kindRound{Version: int(v), Response: fmt.Sprintf("%T", msg)}
+		if e, isErr := msg.(message.Error); isErr {
+			r.Fatal = e.GetErrorCode().IsFatalError()
+		}
+		rec.Checked++
+		ok := true
+		fail := func(kind, what string) {
+			ok = false
+			if len(rec.Failures) < 12 {
+				rec.Failures = append(rec.Failures, sockFailure{Kind: kind, What: what, Case: map[string]interface{}{"response_kind_round": r}})
+			}
+		}
+		if cc == nil || cc.IsClosed() || sc.IsClosed() {
+			shut()
+			if err := open(); err != nil {
+				fail("harness", "open: "+err.Error())
+				continue
+			}
+		}
+		// three requests outstanding; the peer answers the second one with this kind of response
+		var reqs []client.InFlightRequest
+		for i := 0; i < 3; i++ {
+			q, err := cc.Send(frame.NewFrame(v, client.ManagedStreamId, &message.Query{Query: "q", Options: &message.QueryOptions{Consistency: primitive.ConsistencyLevelOne}}))
+			if err != nil {
+				fail("harness", "send: "+err.Error())
+				break
+			}
+			reqs = append(reqs, q)
+		}
+		if len(reqs) < 3 {
+			continue
+		}
+		seen := 0
+		if !within(5*time.Second, func() {
+			for seen < 3 {
+				if _, err := sc.Receive(); err != nil {
+					return
+				}
+				seen++
+			}
+		}) || seen < 3 {
+			fail("harness", fmt.Sprintf("the peer received %d of 3 requests", seen))
+			continue
+		}
+		target := reqs[1]
+		if err := sc.Send(frame.NewFrame(v, target.StreamId(), msg)); err != nil {
+			fail("harness", "peer send: "+err.Error())
+			continue
+		}
+		var f *frame.Frame
+		var err error
+		if !within(wireReadTimeout+3*time.Second, func() { f, err = cc.Receive(target) }) {
+			fail("receiver-blocked", fmt.Sprintf("Receive on the request with stream id %d did not return", target.StreamId()))
+		} else if err != nil || f == nil {
+			fail("delivery-failed", fmt.Sprintf("the peer answered the request with stream id %d (second of three outstanding) with %T; the request never received that frame: %v", target.StreamId(), msg, err))
+		} else if f.Header.StreamId != target.StreamId() || fmt.Sprintf("%T", f.Body.Message) != fmt.Sprintf("%T", msg) {
+			fail("misrouted", fmt.Sprintf("the request with stream id %d was answered with %T and received %T on stream id %d", target.StreamId(), msg, f.Body.Message, f.Header.StreamId))
+		}
+		others := []client.InFlightRequest{reqs[0], reqs[2]}
+		if r.Fatal {
+			// the client closes the connection: the other two are completed with an error, promptly
+			for _, o := range others {
+				o := o
+				if !within(3*time.Second, func() {
+					for !o.IsDone() {
+						time.Sleep(time.Millisecond)
+					}
+				}) {
+					fail("not-done-after-close", fmt.Sprintf("after the fatal %T the client connection closed=%v, but the unanswered request with stream id %d is not done 3s later", msg, cc.IsClosed(), o.StreamId()))
+				} else if o.Err() == nil {
+					fail("no-error-after-close", fmt.Sprintf("after the fatal %T the unanswered request with stream id %d is done without an error", msg, o.StreamId()))
+				}
+			}
+			if !within(3*time.Second, func() {
+				for !cc.IsClosed() {
+					time.Sleep(time.Millisecond)
+				}
+			}) {
+				fail("close-hangs", fmt.Sprintf("the client connection is still open 3s after the fatal %T", msg))
+			}
+		} else {
+			// nothing else moved; the other two get their own answers afterwards
+			for _, o := range others {
+				if o.IsDone() || len(o.Incoming()) != 0 {
+					fail("misrouted", fmt.Sprintf("the response for stream id %d changed the request with stream id %d", target.StreamId(), o.StreamId()))
+				}
+				_ = sc.Send(frame.NewFrame(v, o.StreamId(), &message.VoidResult{}))
+			}
+			for _, o := range others {
+				var f *frame.Frame
+				var err error
+				if !within(wireReadTimeout+3*time.Second, func() { f, err = cc.Receive(o) }) || err != nil || f == nil {
+					fail("delivery-failed", fmt.Sprintf("after a %T for another request, the request with stream id %d did not receive its own response: %v", msg, o.StreamId(), err))
+				}
+			}
+		}
+		if ok {
+			rec.Distinct++
+		}
+	}
+}
+
 // ---- the wiring from the connection's configuration to its in-flight handler. The histories of C09/C10 build the
 // handler themselves with their own (maxInFlight, maxPending); here a REAL CqlClientConnection is configured through
 // CqlClient.MaxInFlight / MaxPending with the two different from each other, in both directions, and C09's and C10's
@@ -444,6 +604,15 @@ func wireSessions(tier string) {
 		wireVersion(v, &rec)
 	}
 	hlib.Emit(rec)
+	krec := predRec{Kind: "pred", Name: "response-kind rounds (real connections, v4 and v5: every kind of response incl. every ERROR variant to the second of three outstanding requests; after a fatal ERROR the others fail; exercised, not proved)"}
+	kvs := []primitive.ProtocolVersion{primitive.ProtocolVersion4, primitive.ProtocolVersion5}
+	if tier == "thorough" {
+		kvs = append(kvs, primitive.ProtocolVersion3, primitive.ProtocolVersionDse1, primitive.ProtocolVersionDse2)
+	}
+	for _, v := range kvs {
+		wireKindsVersion(v, &krec)
+	}
+	hlib.Emit(krec)
 	wiring := []wiringSession{{2, 5}, {5, 2}, {1, 3}, {3, 1}}
 	if tier == "thorough" {
 		wiring = append(wiring, wiringSession{1, 1}, wiringSession{4, 4}, wiringSession{2, 10}, wiringSession{10, 2}, wiringSession{7, 3}, wiringSession{3, 7})
